@@ -144,7 +144,10 @@ impl SubSocket {
     pub async fn subscribe(&mut self, subscription: &str) -> ZmqResult<()> {
         let backend = self.backend.clone();
         let _update_guard = backend.subs_update.lock().await;
-        self.backend.subs.lock().insert(subscription.to_string());
+        if !self.backend.subs.lock().insert(subscription.to_string()) {
+            // Already subscribed: every peer has been told.
+            return Ok(());
+        }
         #[cfg(feature = "verif-hooks")]
         crate::verif_hooks::yield_point("sub.subscribe.after_set_update").await;
         self.process_subs(subscription, SubBackendMsgType::SUBSCRIBE)
@@ -154,7 +157,10 @@ impl SubSocket {
     pub async fn unsubscribe(&mut self, subscription: &str) -> ZmqResult<()> {
         let backend = self.backend.clone();
         let _update_guard = backend.subs_update.lock().await;
-        self.backend.subs.lock().remove(subscription);
+        if !self.backend.subs.lock().remove(subscription) {
+            // Not subscribed: nothing to cancel at the peers.
+            return Ok(());
+        }
         #[cfg(feature = "verif-hooks")]
         crate::verif_hooks::yield_point("sub.unsubscribe.after_set_update").await;
         self.process_subs(subscription, SubBackendMsgType::UNSUBSCRIBE)
